@@ -104,6 +104,12 @@ def Pend.add (p : Pend) (W : Nat) (r : Rect) : Pend :=
 
 def Pend.isNone (p : Pend) : Bool := p.set == 0
 
+/-- the pending region covers the whole screen and none of it can go out as CopyRect: after the
+next complete flush every pixel of the (just cleared) picture has been re-sent as pixel data -/
+def pendAllPixels (d : DCl) (W : Nat) (full : Rect) : Bool :=
+  let fullSet := rectMask W full
+  (d.pend.set &&& (fullSet ^^^ (d.cpy &&& fullSet))) == fullSet
+
 def imgOf (s : Srv) (w h : Nat) : Img :=
   if isMain s w h then s.main.img else
   match findChain s.chain w h with
@@ -130,7 +136,7 @@ def flushCore (s : Srv) (d : DCl) : Srv × DCl × Option String × Option (List 
     if c.nfs && c.pending then
       let s' := { s with clients := setClient s.clients c.id fun c => { c with pending := false } }
       (s', { d with pw := c.sw, ph := c.sh, pic := some (zeros c.sw c.sh),
-                    insync := d.pend.set == rectMask s.main.w (fullRect s) },
+                    insync := pendAllPixels d s.main.w (fullRect s) },
        { c with pending := false }, some s!"nfs={c.sw}x{c.sh}")
     else (s, d, c, none)
   let same := isMain s c.sw c.sh
@@ -336,7 +342,7 @@ def dstep (st : DState) (toks : List String) : DState × List String :=
             else
               let s2 := { s1 with clients := setClient s1.clients i fun c => { c with pending := false } }
               let d' := { d with pw := c.sw, ph := c.sh, pic := some (zeros c.sw c.sh),
-                                 insync := d.pend.set == rectMask s.main.w (fullRect s) }
+                                 insync := pendAllPixels d s.main.w (fullRect s) }
               let msg := if c.palm then s!"told {i} p {s.main.w} {s.main.h} {c.sw} {c.sh}"
                          else s!"told {i} u {c.sw} {c.sh}"
               let (s3, cls, _, _) := flushAll s2 (putCl st.cls d') i
